@@ -116,3 +116,86 @@ func laneEcdsa(c *ev.Ctx) {
 		}
 	}
 }
+
+// Lane D: directory objects (keys ending in "/") are uploads of zero bytes, and an integrity assertion about zero
+// bytes can be false like any other: a wrong Content-MD5, a wrong x-amz-checksum-* header (for each algorithm) or a
+// wrong payload digest on PutObject of "dir/" must be refused and must not create the directory object; the same
+// request with the right value for the empty body is the positive control.
+func laneDirObjects(c *ev.Ctx) {
+	if !c.Want("dirobj") {
+		return
+	}
+	env, err := fx.New("c06d", gw.Config{}, 1)
+	if err != nil {
+		c.Inconclusive("gateway start: " + err.Error())
+		return
+	}
+	defer env.Close()
+	cl := env.Client(0)
+	b := bucket
+	if r := cl.CreateBucket(b); !r.OK() {
+		c.Inconclusive("create bucket: " + r.String())
+		return
+	}
+	other := []byte("not the empty body")
+	type assertion struct {
+		name     string
+		hdr      func(body []byte) s3c.H
+		payload  func(body []byte) string
+		unsigned bool
+	}
+	var as []assertion
+	as = append(as, assertion{name: "md5", hdr: func(x []byte) s3c.H { return s3c.H{{"Content-MD5", s3c.MD5B64(x)}} }})
+	as = append(as, assertion{name: "sha256", payload: func(x []byte) string { return s3c.SHA256Hex(x) }})
+	for _, a := range s3c.Algos {
+		a := a
+		as = append(as, assertion{name: "hdr-" + a, hdr: func(x []byte) s3c.H { return s3c.H{{"x-amz-checksum-" + a, s3c.Checksum(a, x)}} }})
+		as = append(as, assertion{name: "hdr-" + a + "+unsigned-payload", unsigned: true, hdr: func(x []byte) s3c.H { return s3c.H{{"x-amz-checksum-" + a, s3c.Checksum(a, x)}} }})
+	}
+	for i, a := range as {
+		id := fmt.Sprintf("dirobj/%d", i)
+		if !c.Want(id) {
+			continue
+		}
+		mk := func(key string, about []byte) *s3c.Resp {
+			r := &s3c.Req{Method: "PUT", Path: s3c.ObjPath(b, key), Body: []byte{}}
+			if a.hdr != nil {
+				r.Header = a.hdr(about)
+			}
+			if a.payload != nil {
+				r.PayloadHash = a.payload(about)
+			}
+			if a.unsigned {
+				r.PayloadHash = s3c.Unsigned
+			}
+			return cl.Do(r)
+		}
+		good, bad := fmt.Sprintf("dir-good-%d/", i), fmt.Sprintf("dir-bad-%d/", i)
+		ctl := mk(good, nil)
+		c.Eval(1)
+		if ctl.Err != nil {
+			c.Inconclusive("lane D: transport error")
+			continue
+		}
+		if !ctl.OK() {
+			c.Observe("lane D: positive control (" + a.name + " of the empty body) refused: " + ctl.String())
+			continue
+		}
+		r := mk(bad, other)
+		c.Eval(1)
+		if r.Err != nil {
+			c.Inconclusive("lane D: transport error")
+			continue
+		}
+		h := cl.HeadObject(b, bad)
+		det := map[string]any{"key": bad, "false_assertion": a.name, "answer": r.String(), "head_afterwards": h.String(), "control_with_true_assertion": ctl.String()}
+		switch {
+		case r.OK():
+			c.Violation("put:directory-object:"+a.name+":wrong-value:accepted", id, det)
+		case h.Status != 404:
+			c.Violation("put:directory-object:"+a.name+":wrong-value:refused-but-created", id, det)
+		default:
+			c.Distinct(fmt.Sprintf("D|%s|%d", a.name, r.Status))
+		}
+	}
+}
